@@ -4,11 +4,13 @@ C08 — Corrupt scan-line times are repaired, and times are always returned.
 Model: `Model/Times.lean` (shared with C03).  Proved here: `get_times` is total and returns one
 instant per line for every input; what the fallback returns; and the repair guarantee of the
 threshold stage (stage 2) in full generality.  NOT proved: the composition "any garbage in < 40 % of
-the lines leaves stage 2 a good majority" (`repair_lt40_full`) - stage 1 is a cascade of
-data-dependent global replacements; that clause is covered by the correspondence check and the
-property's own oracle only, and is labelled partial.
+the lines leaves stage 2 a good majority" in full generality (`repair_lt40_full`) - stage 1 is a
+cascade of data-dependent global replacements.  Proved end to end (both stages composed) for the
+corruption class "garbage in the millisecond field" (`repair_ms_garbage`, for ANY fraction below one
+half); garbage in the day / year fields is covered by the correspondence check and the property's
+own oracle only, and the clause is labelled partial.
 -/
-import PygacModel.Lemmas.Times
+import PygacModel.Lemmas.TimesRepair
 import PygacModel.Generated.Misc
 namespace PygacModel.C08
 open PygacModel PygacModel.Times Np
@@ -80,6 +82,46 @@ theorem stage2_repairs (prm : S2Params) (P : Rat) (sg : Bool) (nums : List Int) 
     rw [List.getElem_of_eq hts h1, List.getElem_zipWith]
   rw [e]
   exact repairLine_spec prm _ c ε t[i] (tnOf P sg nums)[i] ht0
+
+/-- **End-to-end repair, corruption class "garbage in the ms field"**: scan-line numbers, header time,
+days, years and the first line intact (`Clean`, one calendar year, header within 6 min - 2 ms of the
+pass offset, numbers not decreasing for the signed POD field); ANY values in the ms field of the
+lines marked `good = false`, provided the intact lines are a strict majority (in particular: fewer
+than 40 % corrupt).  Then `get_times` returns one time per line, every returned time is within 10 s
+(+ 2 ms) of the true time, and every intact line is returned to within 1 ms of its recorded time. -/
+theorem repair_ms_garbage (P : Rat) (sg : Bool) (nowYear : Int) (h : Int) (r : RawTimes)
+    (hc : Clean nowYear r) (hy : ∀ y ∈ r.year, y = r.year.headD 0)
+    (hdec : (sg && decreasing r.nums) = false)
+    (good : List Bool) (hglen : good.length = r.nums.length)
+    (hgood : ∀ i (hi : i < good.length), good[i] = true → GoodAt P sg r i)
+    (hmaj : r.nums.length < 2 * good.count true)
+    (hhead : absR (passOffset P sg r - (h : Rat)) ≤ 360000 - 2) :
+    (getTimes {} P nowYear sg (some h) r).length = r.nums.length ∧
+    ∀ i (hi : i < r.nums.length) (h1 : i < (getTimes {} P nowYear sg (some h) r).length)
+      (h2 : i < (recorded r).length) (h3 : i < good.length),
+      absR ((((getTimes {} P nowYear sg (some h) r)[i] : Int) : Rat)
+        - (((lineIdx sg r.nums[i] : Int) : Rat) * P + passOffset P sg r)) ≤ 10002 ∧
+      (good[i] = true → (recorded r)[i] - 1 ≤ (getTimes {} P nowYear sg (some h) r)[i] ∧
+        (getTimes {} P nowYear sg (some h) r)[i] ≤ (recorded r)[i] + 1) :=
+  Times.repair_ms_garbage P sg nowYear h r hc hy hdec good hglen hgood hmaj hhead
+
+/-- non-vacuity of its premises: five lines, the ms field of lines 2 and 4 is garbage -/
+def garbledPass : RawTimes :=
+  { nums := [1, 2, 3, 4, 5], year := [2002, 2002, 2002, 2002, 2002], jday := [187, 187, 187, 187, 187],
+    msec := [43200000, 999, 43201000, 86000000, 43202000] }
+
+example : Clean 2026 garbledPass where
+  n_pos := by decide
+  len_y := rfl
+  len_j := rfl
+  len_m := rfl
+  year_ok := by decide
+  jday_ok := by decide
+  jday_mono := by decide +kernel
+  msec_first := by decide
+
+example : getTimes {} 500 2026 false (some 1025956800000) garbledPass =
+    [1025956800000, 1025956800500, 1025956801000, 1025956801500, 1025956802000] := by decide +kernel
 
 /-- the thresholds of the running code are the model's (6 min, 1 %, 10 s) -/
 theorem generated_s2_params :
